@@ -863,6 +863,65 @@ def r19_5(ctx, counts: dict[str, int], scope=None, min_writers: int = 6) -> Rule
     return res
 
 
+GLOBAL_RNG = {'seed', 'random', 'shuffle', 'randint', 'randrange', 'choice', 'choices', 'sample',
+              'uniform', 'getrandbits', 'gauss', 'setstate'}
+
+
+def r19_6(ctx, counts: dict[str, int]) -> RuleResult:
+    """the interpreter-wide random generator and the ElementTree prefix registry"""
+    model: Model = ctx.model
+    res = RuleResult(
+        'R19.6', 'STDLIB-GLOBAL-STATE',
+        'Two more pieces of process-wide state live in the standard library. (a) The module '
+        'level functions of `random` (seed, random, shuffle, ...) read and advance one hidden '
+        'generator shared with the application: the package calls none of them (a generator of '
+        'its own, random.Random(seed), is what fn:random-number-generator needs; with '
+        'random.seed(seed) an evaluation made the application\'s later random.random() '
+        'predictable and threads interfered). (b) <etree>.register_namespace(prefix, uri) writes '
+        'the prefix registry that every later ElementTree.tostring of the process uses: each '
+        'call site is listed (known findings: the ElementTree API offers no serializer-local '
+        'alternative).')
+    n = 0
+    for mod in model.modules.values():
+        for f in mod.functions.values():
+            for c in walk_local(f.node):
+                if not isinstance(c, ast.Call):
+                    continue
+                if isinstance(c.func, ast.Attribute) and c.func.attr in GLOBAL_RNG:
+                    kind, val = model.resolve_expr(mod, c.func)
+                    if kind == 'external' and val == f'random.{c.func.attr}':
+                        n += 1
+                        res.instances.append(f'{f.key}: L{c.lineno} {stmt_text(c)[:40]}')
+                        res.fail(finding('R19.6', f, c, f'global random.{c.func.attr}',
+                                         f'`{stmt_text(c)[:50]}` uses the interpreter-wide '
+                                         f'random generator: an XPath evaluation reseeds or '
+                                         f'advances the generator of the host application '
+                                         f'(and of every other thread)'))
+                elif isinstance(c.func, ast.Name) and c.func.id in GLOBAL_RNG:
+                    kind, val = model.resolve(mod, c.func.id)
+                    if kind == 'external' and val == f'random.{c.func.id}':
+                        n += 1
+                        res.fail(finding('R19.6', f, c, f'global random.{c.func.id}',
+                                         f'`{stmt_text(c)[:50]}` uses the interpreter-wide '
+                                         f'random generator'))
+                if isinstance(c.func, ast.Attribute) and c.func.attr == 'register_namespace':
+                    n += 1
+                    res.instances.append(f'{f.key}: L{c.lineno} {stmt_text(c)[:50]}')
+                    res.fail(finding('R19.6', f, c, 'register_namespace',
+                                     f'`{stmt_text(c)[:60]}` writes the process-wide prefix '
+                                     f'registry of ElementTree/lxml: the prefixes chosen by every '
+                                     f'later tostring() of the application change'))
+    rng_ctor = [c for f in model.all_functions() for c in walk_local(f.node)
+                if isinstance(c, ast.Call) and dotted(c.func) in ('random.Random', 'Random',
+                                                                  'random.SystemRandom')]
+    res.instances.append(f'own generators constructed: {len(rng_ctor)}')
+    if rng_ctor:
+        res.ok()
+    counts['stdlib_global_calls'] = n
+    counts['own_random_generators'] = len(rng_ctor)
+    return res
+
+
 def run(ctx) -> dict:
     counts: dict[str, int] = {}
     results = [r19_1(ctx, counts), r19_2(ctx, counts), r19_3(ctx, counts), r19_4(ctx, counts)]
@@ -870,6 +929,7 @@ def run(ctx) -> dict:
     from .c13_unicode import r13_4
     results.append(r13_4(ctx, counts))
     results.append(r19_5(ctx, counts))
+    results.append(r19_6(ctx, counts))
     return {
         'results': results,
         'counts': counts,
